@@ -213,3 +213,47 @@ for kind in ('Nasa', 'Nasa9', 'Shomate'):
 
 from contracts import helpers
 helpers.install(P, 'kwargs')
+
+# ---- the same clause with every combination of the error / warning switches (they must not change what is computed) ----------
+for re_, rw_ in ((False, False), (True, False), (False, True)):
+    sp_ = New(NASA + 'Nasa', name=Const('A'), T_low=Real(50., 400.), T_mid=Real(500., 1500.), T_high=Real(2000., 6000.),
+              a_low=RealVec(7, -50., 50.), a_high=RealVec(7, -50., 50.), phase=Const('s'), misc_models=ListOf([cov_on('O'), cov_on('CO')]))
+    for q in ('HoRT', 'GoRT'):
+        bare = (BARE7 % q) if q != 'GoRT' else '(%s - %s)' % (BARE7 % 'HoRT', BARE7 % 'SoR')
+        contract(NASA + 'Nasa.get_' + q, P, label='own-conditions,raise_error=%s,raise_warning=%s' % (re_, rw_),
+                 args=dict(self=sp_, T=Real(100., 3000.), raise_error=Const(re_), raise_warning=Const(rw_),
+                           O_kwargs=DictOf({'x': Real(0., 1.)}), CO_kwargs=DictOf({'x': Real(0., 1.)})),
+                 requires=['T > 0', '0 < self.T_low', 'self.T_low < self.T_mid', 'self.T_mid < self.T_high'],
+                 ensures=[('each-model-at-its-own-coverage',
+                           "result == %s + self.misc_models[0].get_HoRT(x=O_kwargs['x'], T=T) + self.misc_models[1].get_HoRT(x=CO_kwargs['x'], T=T)" % bare)],
+                 cross_check=False)
+    contract('pmutt.mixture:_get_mix_quantity', P, label='own-conditions,raise_error=%s,raise_warning=%s' % (re_, rw_),
+             args=dict(misc_models=ListOf([cov_on('O'), cov_on('CO')]), method_name=Const('get_HoRT'), raise_error=Const(re_), raise_warning=Const(rw_),
+                       T=Real(100., 3000.), O_kwargs=DictOf({'x': Real(0., 1.)}), CO_kwargs=DictOf({'x': Real(0., 1.)})),
+             requires=['T > 0'],
+             ensures=[('one-entry-per-model-at-its-own-coverage',
+                       "len(result) == 2 and result[0] == misc_models[0].get_HoRT(x=O_kwargs['x'], T=T) and "
+                       "result[1] == misc_models[1].get_HoRT(x=CO_kwargs['x'], T=T)")], cross_check=False)
+
+# ---- temperature arrays of any length (declared bounded: run natively on samples; never counted as proved) ----------------------
+def with_models(cls):
+    ms = ListOf([cov_on('B'), New(EMP + 'GasPressureAdj')])
+    if cls == 'Nasa':
+        return New(NASA + 'Nasa', name=Const('A'), T_low=Real(50., 400.), T_mid=Real(500., 1500.), T_high=Real(2000., 6000.),
+                   a_low=RealVec(7, -50., 50.), a_high=RealVec(7, -50., 50.), phase=Const('g'), misc_models=ms)
+    if cls == 'Nasa9':
+        return New(NASA + 'Nasa9', name=Const('A'), phase=Const('g'), misc_models=ms,
+                   nasas=ListOf([New(NASA + 'SingleNasa9', T_low=Const(100.), T_high=Const(1000.), a=RealVec(9, -50., 50.)),
+                                 New(NASA + 'SingleNasa9', T_low=Const(1000.), T_high=Const(3000.), a=RealVec(9, -50., 50.))]))
+    return New(SHO + 'Shomate', name=Const('A'), T_low=Real(100., 300.), T_high=Real(2000., 6000.), a=RealVec(8, -50., 50.),
+               phase=Const('g'), misc_models=ms)
+
+
+for cls, qual in (('Nasa', NASA + 'Nasa'), ('Nasa9', NASA + 'Nasa9'), ('Shomate', SHO + 'Shomate')):
+    for q in ('HoRT', 'SoR', 'GoRT', 'CpoR'):
+        contract(qual + '.get_' + q, P, label='with-models,temperature-array,large', shapes=dict(n=[4, 5, 8, 40, 300]), native_only=True,
+                 args=lambda n, cls=cls: dict(self=with_models(cls), T=RealVec(n, 150., 2900.), P=PR, x=Real(0., 1.)),
+                 requires=['all(T[i] > 0 for i in range(len(T)))', 'P > 0', 'x >= 0'] +
+                          (['0 < self.T_low', 'self.T_low < self.T_mid', 'self.T_mid < self.T_high'] if cls == 'Nasa' else []),
+                 ensures=[('each-entry-is-the-scalar-value-with-every-model-once',
+                           'all(at(result, i) == self.get_%s(T=T[i], P=P, x=x) for i in range(len(T)))' % q)])
